@@ -216,6 +216,7 @@ def svc_setup(ctx):
     sub_is_ns = ctx.choose(2, "sub-config-is-a-namespace") == 1
     typed = ctx.choose(2, "the-sub-config's-key-has-a-typed-action") == 1
     ref_saved = ctx.choose(2, "the-path's-key-is-in-save_path_content") == 1
+    bad_format = ctx.choose(2, "the-format-is-unknown") == 1
     ctx.classes.add("Namespace", ["object"])
     ctx.classes.add("Path", ["object"])
     for n in ("ActionJsonSchema", "ActionJsonnet", "ActionTypeHint", "_ActionConfigLoad"):
@@ -257,7 +258,8 @@ def svc_setup(ctx):
                methods={"dump": dump, "validate": lambda c, s_, a, k: c.event("validate", a[0], dict(k))})
     open_cms = []
     calls = {
-        "deprecated_skip_check": lambda c, a, k: a[2], "check_valid_dump_format": lambda c, a, k: c.event("format-checked", a[0]),
+        "deprecated_skip_check": lambda c, a, k: a[2],
+        "check_valid_dump_format": lambda c, a, k: (c.event("format-checked", a[0]), (_ for _ in ()).throw(PyRaise(ExcVal("ValueError", args=("Unknown output format",), origin="check_valid_dump_format"))) if bad_format else None)[1],
         "Path": path_ctor, "os.path.isfile": lambda c, a, k: False, "os.path.basename": lambda c, a, k: a[0].rsplit("/", 1)[-1],
         "ActionLink.strip_link_target_keys": lambda c, a, k: c.event("strip-link-targets", a[1]),
         "strip_meta": lambda c, a, k: (c.event("strip_meta", a[0]), stripped if a[0] is sub else Rec("Namespace", attrs={"tag": "cfg without meta"}))[1],
@@ -273,7 +275,7 @@ def svc_setup(ctx):
               "ActionJsonnet": ClassRef("ActionJsonnet"), "ActionTypeHint": ClassRef("ActionTypeHint"), "_ActionConfigLoad": ClassRef("_ActionConfigLoad")}
     env = {"self": self, "cfg": cfg, "path": "main.yaml", "format": "yaml", "skip_none": True, "skip_validation": False, "overwrite": False, "multifile": True, "branch": None, "kwargs": {}}
     return Setup(env=env, calls=calls, cms=cms, consts=consts,
-                 data=dict(has_orig=has_orig, sub_is_ns=sub_is_ns, typed=typed, ref_saved=ref_saved, orig_text=orig_text, content_text=content_text, sub_text=sub_text, main_text=main_text,
+                 data=dict(bad_format=bad_format, has_orig=has_orig, sub_is_ns=sub_is_ns, typed=typed, ref_saved=ref_saved, orig_text=orig_text, content_text=content_text, sub_text=sub_text, main_text=main_text,
                            clone=clone, clone_store=clone_store, caller_store=caller_store, cfg=cfg, sub=sub, ref=ref, plain=plain, open_cms=open_cms))
 
 
@@ -281,6 +283,7 @@ def svc_post(ctx, st, result):
     d = st.data
     tag = f"[{'typed' if d['typed'] else 'untyped'} sub-config{' (keeps its text)' if d['has_orig'] else ''}{' as namespace' if d['sub_is_ns'] else ' as dict'},{'path content saved' if d['ref_saved'] else 'path kept as a path'}]"
     ev = ctx.events
+    ctx.oblige("post", "a-save-succeeds-only-with-a-known-format(an unknown one is refused before anything is written - some sub-files never consult the format)" + tag, not d["bad_format"])
     writes = [(e[1], e[2]) for e in ev if e[0] == "write"]
     want = []
     if d["typed"]:
@@ -312,9 +315,18 @@ def svc_post(ctx, st, result):
 
 
 def svc_raises(ctx, st, exc):
-    ctx.oblige("raises", f"no-exception-in-this-scenario(got {exc.cls}@{exc.origin})", False)
+    d = st.data
+    ctx.oblige("raises", f"only-an-unknown-format-is-refused,and-before-any-file-is-opened(got {exc.cls}@{exc.origin})",
+               d["bad_format"] and exc.origin == "check_valid_dump_format" and not [e for e in ctx.events if e[0] in ("open", "write")])
 
 
-UNITS.append(Unit("C18", "jsonargparse._core:ArgumentParser.save", svc_setup, svc_post, svc_raises, label="multi-file,concrete-configuration", max_paths=5000,
+UNITS.append(Unit("C18", "jsonargparse._core:ArgumentParser.save", svc_setup, svc_post, svc_raises, label="multi-file,concrete-configuration", max_paths=5000, expect_cover=("return", "raise:ValueError"),
                   trusted=["open / write are the only file effects (ghost events)", "Path(name, mode='fc') resolves name against the current directory (here: the directory of the main file)",
                            "dump / dump_using_format / strip_meta / get_content by contract"]))
+
+
+# "parsing the saved path reproduces the configuration": what save writes is what dump produces; that a str is never written as a plain scalar the
+# loader reads as another type is the resolver-table lemma of C01 (extracted from the running dumper / loader on every run)
+from contracts.c01 import LEMMAS as _C01_LEMMAS  # noqa: E402
+import dataclasses as _dc  # noqa: E402
+LEMMAS = [_dc.replace(l, name=l.name.replace("C01/", "C18/")) for l in _C01_LEMMAS]
